@@ -653,3 +653,9 @@ def run(report, repo):
   # constructor call (shared C08-R2)
   from sa.rules import c08  # pylint: disable=g-import-not-at-top
   report.guard(c08.r2_construct_once, report, repo, rule='C11-R7')
+  from sa.rules import extra4  # pylint: disable=g-import-not-at-top
+  report.guard(extra4.no_identity_deepcopy, report, repo, 'C11-R8',
+               ['openhtf/core/measurements.py', 'openhtf/core/phase_descriptor.py',
+                'openhtf/core/phase_collections.py', 'openhtf/core/phase_group.py',
+                'openhtf/core/phase_branches.py', 'openhtf/util/validators.py',
+                'openhtf/core/diagnoses_lib.py'])
